@@ -158,7 +158,7 @@ def gen_case(rng, pats, en_atoms, ja_atoms):
     if mode < 0.12:
         return px, py, gens.random_value(rng, atoms, 5), gens.random_value(rng, atoms, 5)
     vars_ = set(refunify.pattern_vars(px) + refunify.pattern_vars(py))
-    assign = {v: gens.random_value(rng, atoms, rng.choice((1, 1, 2, 3))) for v in sorted(vars_)}
+    assign = {v: gens.random_value(rng, atoms, rng.choice((1, 1, 2, 3, 3, 4, 5, 6))) for v in sorted(vars_)}
     x = instantiate(px, assign, rng)
     assign_y = dict(assign)
     x = x if rng.random() < 0.6 else perturb(x, rng, atoms, system)
